@@ -139,6 +139,18 @@ CLAIMS = {
         note=TRUST + "Memory::AlignSize is assumed to return a power of two >= its argument.",
         technique="static analysis: protocol/ordering checks on the exported AST/CFG, sibling comparison, borrow dataflow",
         ref="DESIGN.md section 4 C13"),
+    "C14": dict(
+        text="Static analysis, partial: append siblings write their first element at Storage() + the size before the "
+             "update (destination expression and order of the size update, per member of the family); borrowed "
+             "storage pointers and self-aliasing element pointers (s += s, s = s.First() + n) are not used after a "
+             "call that may release the storage (interprocedural may-release summaries + dataflow); String paths "
+             "store the terminator at the length they set; First()[i] on a possibly empty String proven i < Length() "
+             "(E-ZONE) and nullable pointer parameters dereferenced only under their test (CFG dominance); SIMD "
+             "Shift/Size/intrinsics tables and the vector+tail shape of Copy/SetToZero (three configurations in the "
+             "thorough tier); AlignSize; moved-from containers nulled. Not decided: sequence-model equality.",
+        note=TRUST + "Byte-wise relocation of elements is assumed valid (no self-pointers).",
+        technique="static analysis: sibling destination check, borrow/alias dataflow, zone bounds, CFG dominance, constant tables",
+        ref="DESIGN.md section 4 C14"),
     "C15": dict(
         text="Static analysis, partial: the prefix-exhausted tail of IsLess/IsGreater must be asymmetric in the two "
              "lengths (decided by swapping the parameters in the exported expression and comparing normal forms) and "
